@@ -1,6 +1,183 @@
-//! (stub) modes of this area are added here; see main.rs for the calling convention.
-use crate::Args;
+//! CGI variable-name modes (C19): VarName / OwnedVarName / StaticVarName of the real crate.
+use crate::{arg, argn, bytes, nums, Arg, Args};
+use fastcgi_server::cgi::{OwnedVarName, StaticVarName, VarName};
+use std::borrow::Cow;
+use std::cmp::Ordering;
+use std::collections::{BTreeMap, HashMap, HashSet};
+use std::hash::{Hash, Hasher};
 
-pub fn dispatch(_mode: &str, _a: &Args) -> Option<Args> {
-    None
+pub fn dispatch(mode: &str, a: &Args) -> Option<Args> {
+    Some(match mode {
+        "names_pair" => names_pair(a),
+        "names_sort" => names_sort(a),
+        "names_header" => names_header(a),
+        "consts_names" => consts_names(a),
+        _ => return None,
+    })
+}
+
+/// Records every `Hasher::write` payload. Only `write` is implemented: the provided integer
+/// methods of `Hasher` forward to it, so anything hashed is captured.
+#[derive(Default)]
+struct Recorder(Vec<Vec<u8>>);
+impl Hasher for Recorder {
+    fn write(&mut self, b: &[u8]) {
+        self.0.push(b.to_vec());
+    }
+    fn finish(&self) -> u64 {
+        0
+    }
+}
+
+fn writes<T: Hash + ?Sized>(v: &T) -> Vec<Vec<u8>> {
+    let mut r = Recorder::default();
+    v.hash(&mut r);
+    r.0
+}
+
+fn enc_writes(w: &[Vec<u8>]) -> Arg {
+    let mut out = Vec::new();
+    for p in w {
+        out.push(p.len() as u128);
+        out.extend(nums(p));
+    }
+    out
+}
+
+fn b2n(b: bool) -> u128 {
+    u128::from(b)
+}
+fn c2n(c: Ordering) -> u128 {
+    match c {
+        Ordering::Less => 0,
+        Ordering::Equal => 1,
+        Ordering::Greater => 2,
+    }
+}
+
+fn utf8(b: &[u8]) -> String {
+    String::from_utf8(b.to_vec()).expect("case strings must be valid UTF-8")
+}
+
+/// constructor number -> (name, the caller's string afterwards)
+fn mk(c: u128, s: &str) -> Option<(OwnedVarName, String)> {
+    let keep = s.to_owned();
+    Some(match c {
+        0 => (OwnedVarName::from(s), keep),
+        1 => (OwnedVarName::from(s.to_owned()), keep),
+        2 => (OwnedVarName::from(s.to_owned().into_boxed_str()), keep),
+        3 => (OwnedVarName::from(Cow::Borrowed(s)), keep),
+        4 => (OwnedVarName::from(Cow::<str>::Owned(s.to_owned())), keep),
+        5 => {
+            let mut m = s.to_owned();
+            let o = OwnedVarName::from_mut_str(m.as_mut_str());
+            (o, m)
+        },
+        6 => (OwnedVarName::from(VarName::new(s)), keep),
+        7 => (VarName::new(s).to_owned(), keep),
+        8 => match s.parse::<StaticVarName>() {
+            Ok(v) => (OwnedVarName::from(v), keep),
+            Err(_) => return None,
+        },
+        _ => return None,
+    })
+}
+
+pub fn names_pair(a: &Args) -> Args {
+    let s1 = utf8(&bytes(&arg(a, 1)));
+    let s2 = utf8(&bytes(&arg(a, 3)));
+    let (Some((o1, p1)), Some((o2, p2))) = (mk(argn(a, 0), &s1), mk(argn(a, 2), &s2)) else {
+        return vec![vec![777]];
+    };
+    let (v1, v2) = (VarName::new(&s1), VarName::new(&s2));
+    let r1: &str = o1.as_ref();
+    let r2: &str = o2.as_ref();
+    let (b1, b2): (&VarName, &VarName) = (std::borrow::Borrow::borrow(&o1), std::borrow::Borrow::borrow(&o2));
+    // the borrowed view of an owned name is exactly its as_ref string
+    assert_eq!(<&str>::from(b1), r1);
+    assert_eq!(<&str>::from(b2), r2);
+    assert_eq!(o1.to_string(), r1);
+    let (h1, h2, g1, g2) = (writes(&o1), writes(&o2), writes(v1), writes(v2));
+    // PartialOrd agrees with Ord; != is the negation of ==
+    assert_eq!(o1.partial_cmp(&o2), Some(o1.cmp(&o2)));
+    assert_eq!(v1.partial_cmp(v2), Some(v1.cmp(v2)));
+    assert_eq!(o1 != o2, !(o1 == o2));
+
+    let mut hm: HashMap<OwnedVarName, u8> = HashMap::new();
+    hm.insert(o1.clone(), 1);
+    let mut bm: BTreeMap<OwnedVarName, u8> = BTreeMap::new();
+    bm.insert(o1.clone(), 1);
+    vec![
+        vec![1],
+        nums(r1.as_bytes()),
+        nums(r2.as_bytes()),
+        nums(p1.as_bytes()),
+        nums(p2.as_bytes()),
+        vec![b2n(v1 == v2), b2n(b1 == b2), b2n(o1 == o2), b2n(o2 == o1)],
+        vec![c2n(v1.cmp(v2)), c2n(b1.cmp(b2)), c2n(o1.cmp(&o2)), c2n(o2.cmp(&o1))],
+        vec![b2n(h1 == h2), b2n(g1 == h1), b2n(g2 == h2)],
+        enc_writes(&h1),
+        enc_writes(&h2),
+        vec![
+            b2n(hm.get(&o2).is_some()),
+            b2n(hm.get(v2).is_some()),
+            b2n(bm.get(&o2).is_some()),
+            b2n(bm.get(v2).is_some()),
+        ],
+    ]
+}
+
+pub fn names_sort(a: &Args) -> Args {
+    let mut bm: BTreeMap<OwnedVarName, u128> = BTreeMap::new();
+    let mut hs: HashSet<OwnedVarName> = HashSet::new();
+    for (i, x) in a.iter().enumerate() {
+        let Some((&c, s)) = x.split_first() else { return vec![vec![777]] };
+        let s = utf8(&bytes(&s.to_vec()));
+        let Some((o, _)) = mk(c, &s) else { return vec![vec![777]] };
+        bm.insert(o.clone(), i as u128);
+        hs.insert(o);
+    }
+    let mut out = vec![vec![bm.len() as u128, hs.len() as u128]];
+    for (k, v) in &bm {
+        let mut e = vec![*v];
+        e.extend(nums(k.as_ref().as_bytes()));
+        out.push(e);
+    }
+    out
+}
+
+pub fn names_header(a: &Args) -> Args {
+    let raw = bytes(&arg(a, 0));
+    let Ok(hn) = http::header::HeaderName::from_bytes(&raw) else { return vec![vec![0]] };
+    let o = OwnedVarName::from(&hn);
+    // the CGI spelling computed independently, through the case-preserving constructor
+    let spelled = format!("HTTP_{}", hn.as_str().replace('-', "_"));
+    let o2 = OwnedVarName::from(spelled.as_str());
+    let (w, w2) = (writes(&o), writes(&o2));
+    vec![
+        vec![1],
+        nums(hn.as_str().as_bytes()),
+        nums(o.as_ref().as_bytes()),
+        nums(o2.as_ref().as_bytes()),
+        vec![b2n(o == o2), c2n(o.cmp(&o2)), b2n(w == w2)],
+        enc_writes(&w),
+    ]
+}
+
+pub fn consts_names(a: &Args) -> Args {
+    a.iter()
+        .map(|x| {
+            let Ok(s) = String::from_utf8(bytes(x)) else { return vec![0] };
+            match s.parse::<StaticVarName>() {
+                Ok(v) => {
+                    let back: &'static str = v.into();
+                    assert_eq!(back, v.as_ref());
+                    let mut e = vec![1];
+                    e.extend(nums(back.as_bytes()));
+                    e
+                },
+                Err(_) => vec![0],
+            }
+        })
+        .collect()
 }
